@@ -6,6 +6,11 @@ VERIF = os.path.dirname(os.path.dirname(os.path.abspath(__file__)))
 ALL = ["C%02d" % i for i in range(1, 21)]
 
 CLAIMED = {
+ "C13": dict(
+   technique="TLA+ spec UdpTaskPool.tla (one action per atomic step between the verif yield points of udp_task_pool.go) model-checked exhaustively with TLC; TLC counterexamples and simulated behaviours forced on the real UdpTaskPool through blocking yield hooks (controlled scheduler), plus seeded random gated walks with the property layer evaluated on the real execution log",
+   text="TLC explores every interleaving of producers (acquire fast path / create / LoadOrStore / enqueue / release) with the per-flow worker's pop, idle timer, emptiness check, claim, table removal and channel recycling, checking exactly-once, per-flow FIFO, one-at-a-time, no-foreign-queue and no-residue. The counterexample schedules TLC finds in the check-then-claim variant (the defect repaired by a fix: commit) and simulated behaviours of the repaired model are replayed step by step on the real pool with the yield hooks as scheduler gates; random gated walks explore schedules not taken from the model. Verdicts come only from the real execution log (lost, duplicated, foreign-queue, overlapping or out-of-order tasks).",
+   note="Covers the task-pool mechanism of C13 (first sentence of the property). Endpoint pool and flow-entry ownership are being added (UdpEndpointPool.tla / TupleTracker.tla). Steps between two yield points are assumed atomic; GOMAXPROCS(1) during replay so that sync.Pool matches the modelled private slot + shared chain; 3 producers over 2 flows, <=2 tasks each, channel capacity 1 in the model.",
+   design="§3 C13"),
  "C02": dict(
    technique="TLA+ spec RuleScan.tla: kernel route() automaton (KScan: route_state bits, DNS_QUERY hand-over, is_wan process-name gating) checked by TLC to equal the first-match semantics modulo IntendedDiff; generated programs installed by the production builders into real kernel maps and every packet executed by the real tc programs (BPF_PROG_TEST_RUN) on LAN ingress and WAN egress",
    text="TLC checks in every generated program state that the kernel scan automaton over the lowered match-set array decides as the reference semantics except for the intended DNS hand-over. A sample of the programs is compiled from config text, written into real kernel maps by BuildKernspace (LPM ring slots, routing_map, routing_meta_map, domain bitmaps), and each packet is run through the real tproxy_lan_ingress_l2 and tproxy_wan_egress_l2 programs in the kernel; the decision is read back with the production RetrieveRoutingResult and compared with the spec and with RoutingMatcher.Match.",
